@@ -497,3 +497,6 @@ def run(S):
     rule_slot(S)
     rule_rd1(S)
     rule_idx(S)
+    # 'n distinct slot numbers in key order': the re-sort of a leaf uses the one key order (shared with C18)
+    from checks.C18 import rule_use
+    rule_use(S)
